@@ -31,6 +31,10 @@ class BrainFuckGenerator:
         """Takes a brainfuck program and returns the IR-code module"""
         self.logger.info("Generating IR-code from brainfuck")
 
+        # The source can be a string or a file like object:
+        if hasattr(src, "read"):
+            src = src.read()
+
         # Assembler code will call sample_start
         self.builder.module = ir.Module(module_name)
 
@@ -41,9 +45,8 @@ class BrainFuckGenerator:
         self.builder.set_block(block1)
 
         # Allocate space on stack for ptr register:
-        ptr_var = self.builder.emit(
-            ir.Alloc("ptr_alloc", self.arch.get_size(ir.i32), 4)
-        )
+        ptr_size = self.arch.get_size("ptr")
+        ptr_var = self.builder.emit(ir.Alloc("ptr_alloc", ptr_size, ptr_size))
         ptr_var = self.builder.emit(ir.AddressOf(ptr_var, "ptr_addr"))
 
         bf_mem_size = 30000
@@ -80,7 +83,7 @@ class BrainFuckGenerator:
         self.builder.set_block(block_init)
         ptr_val = self.builder.emit_load(ptr_var, ir.ptr)
         cell_addr = self.builder.emit_add(data, ptr_val, ir.ptr)
-        self.builder.emit(ir.Store(zero_ins, cell_addr))
+        self.builder.emit(ir.Store(zero_byte, cell_addr))
         add_ins = self.builder.emit_add(ptr_val, prc_inc, ir.ptr)
         self.builder.emit(ir.Store(add_ins, ptr_var))
         self.builder.emit(
@@ -153,6 +156,8 @@ class BrainFuckGenerator:
                 loops.append((entry_block, exit_block))
             elif char == "]":
                 # Jump back to condition code:
+                if not loops:
+                    raise CompilerError("] requires matching [")
                 entry_block, exit_block = loops.pop(-1)
 
                 # Set incoming branch to phi node:
